@@ -31,6 +31,9 @@ Violations(c) ==
   (IF \E e \in E(c) : o[e].positive # c.expect THEN {"decision-differs:" \o (CHOOSE e \in E(c) : o[e].positive # c.expect)} ELSE {})
   \cup UNION {{e \o ":" \o Fields[f] : f \in {y \in 1..Len(Fields) : o[e].view[Fields[y]] # c.canon[Fields[y]]}}
               : e \in {x \in E(c) : o[x].positive /\ c.expect}}
+  \* entries without a peer they trust: the address the request claims in X-Forwarded-For is not a client address
+  \cup {e \o ":client-address-from-header" : e \in {x \in E(c) \cap {"envoy", "envoy_split", "proxy_untrusted"} :
+            o[x].positive /\ \E i \in 1..Len(o[x].view.ips) : o[x].view.ips[i] = "198.51.100.7"}}
   \cup (IF c.expect /\ \E e \in E(c) : o[e].positive /\ o[e].up # c.canonup
         THEN {"upstream-side-differs:" \o (CHOOSE e \in E(c) : o[e].positive /\ o[e].up # c.canonup)} ELSE {})
   \cup (IF ~c.expect /\ \E e \in E(c) : o[e].status # c.status
